@@ -260,7 +260,7 @@ theorem top_div7 (p : RBlock) (Γ' : Gam) (hy : ZTop7 [] p Γ')
 theorem program_div7 (ast : Block) (r : RBlock) (bc : Bytecode) (hc : compileProgram ast = .ok (r, bc)) (hin : inFragment7 r = true)
     (hdiv : ∀ F, Spec.evalB F r {} = .fuel) (n : Nat) :
     (∃ s', runSteps bc.code n (VM.start {} bc) = .budget s') ∨
-    (∃ n0 s', ∀ k, runSteps bc.code (n0 + k) (VM.start {} bc) = .error .index s') := by
+    HitsLimit bc := by
   obtain ⟨Γ', hy⟩ := inFragment7_sound r hin
   unfold compileProgram at hc
   cases hr : resolveProgram ast with
